@@ -9,6 +9,16 @@ pub uninterp spec fn num_of(s: &VString) -> int;           // the integer the te
 pub uninterp spec fn parses_isize(s: &VString) -> bool;
 pub uninterp spec fn parses_usize(s: &VString) -> bool;
 pub uninterp spec fn text_of(s: &VString) -> Seq<char>;
+
+// String methods a change may route a text through: results are uninterpreted (NOT known to be the identity)
+pub uninterp spec fn verif_replaced(t: Seq<char>, from: char, to: Seq<char>) -> Seq<char>;
+pub uninterp spec fn verif_lowered(t: Seq<char>) -> Seq<char>;
+pub uninterp spec fn verif_trimmed(t: Seq<char>) -> Seq<char>;
+impl VString {
+    #[verifier::external_body] pub fn replace(&self, from: char, to: &str) -> (r: VString) ensures text_of(&r) == verif_replaced(text_of(self), from, to@) { unimplemented!() }
+    #[verifier::external_body] pub fn to_lowercase(&self) -> (r: VString) ensures text_of(&r) == verif_lowered(text_of(self)) { unimplemented!() }
+    #[verifier::external_body] pub fn trim(&self) -> (r: VString) ensures text_of(&r) == verif_trimmed(text_of(self)) { unimplemented!() }
+}
 // R5: str::parse::<isize>() / ::<usize>() (assumed std contract: Ok exactly for well-formed numerals in range)
 #[verifier::external_body]
 pub fn parse_isize(s: &VString) -> (r: Result<isize, VErr>)
